@@ -1,5 +1,5 @@
 """C10 (repositories), C11 (codecs), C12 (sync), C13 (backtest), C19 (malformed external data)."""
-import random, json, collections, binascii
+import re, random, json, collections, binascii
 import vlib
 from c_indicators import load_findings, known_line
 
@@ -479,6 +479,9 @@ def gen_csv_doc(rng, header):
         vals = [rng.choice(['abc', '"q,x"', '', 'z']), str(rng.choice([0, -5, 12, 2**40, 'x', '1.5'])),
                 str(rng.choice([1.5, -2, '1e10', 'nanx', 'Inf', ''])), rng.choice(['true', 'false', '1', 'T', 'yes', ''])]
         vals = (vals + ['e'] * 3)[:n]
+        if rng.random() < 0.25:      # a cell padded with white space: not a number / boolean as written
+            k = rng.randrange(len(vals))
+            vals[k] = rng.choice([' ', '  ', '\t']) + vals[k] if rng.random() < 0.5 else vals[k] + rng.choice([' ', '\t'])
         rows.append(','.join(vals))
     return ('\n'.join(rows) + ('\n' if rng.random() < 0.8 else '')).encode()
 
@@ -502,6 +505,16 @@ def check_c19(res, tier, replay):
         for _ in range(n // 2):
             k = rng.randrange(0, 5)
             elems = ['{"a":%d,"b":"%s"}' % (rng.randrange(100), rng.choice(['x', 'y\\n', ''])) for _ in range(k)]
+            for j in range(len(elems)):       # members left out (they must come out as zero values, not as what the previous element had) and unknown members
+                r2 = rng.random()
+                if r2 < 0.15:
+                    elems[j] = '{"a":%d}' % rng.randrange(100)
+                elif r2 < 0.3:
+                    elems[j] = '{"b":"%s"}' % rng.choice(['p', 'q'])
+                elif r2 < 0.4:
+                    elems[j] = '{}'
+                elif r2 < 0.5:
+                    elems[j] = elems[j][:-1] + ',"zz":[1,2]}'
             if rng.random() < 0.2:
                 elems.insert(rng.randrange(0, len(elems) + 1), rng.choice(['null', '7', '"x"', '[]', '{}']))
             doc = '[' + ','.join(elems) + ']'
@@ -516,6 +529,12 @@ def check_c19(res, tier, replay):
             status = rng.choice([200, 200, 200, 201, 204, 301, 400, 401, 404, 429, 500, 503])
             k = rng.randrange(0, 4)
             elems = ['{"date":"2020-01-0%dT00:00:00.000Z","adjClose":%d.5,"adjVolume":%d}' % (j + 1, j, j * 10) for j in range(k)]
+            for j in range(len(elems)):       # members the client does not know (the service adds fields over time) and members left out
+                r2 = rng.random()
+                if r2 < 0.2:
+                    elems[j] = elems[j][:-1] + ',"vwap":%d.25,"splitFactor":1.0}' % j
+                elif r2 < 0.3:
+                    elems[j] = '{"date":"2020-01-0%dT00:00:00.000Z"}' % (j + 1)
             r = rng.random()
             if r < 0.3:
                 # elements of the wrong JSON kind in an otherwise valid array: null, numbers, strings, arrays, empty objects
@@ -555,6 +574,11 @@ def check_c19(res, tier, replay):
             status = int(ln.split(' ')[2])
             if status != 200 and ('since=ok' in g or 'last=ok' in g):
                 problem = 'non-success HTTP status surfaced as success: ' + g
+            m = re.search(r'since=ok:(\d+) want=(\d+)', g)
+            if status == 200 and m and m.group(1) != m.group(2):
+                problem = 'the repository delivered %s snapshots, the well-formed prefix of the body has %s: %s' % (m.group(1), m.group(2), g)
+        elif kind == 'JSONBAD' and ' diff ' in g:
+            problem = 'records delivered differ from the well-formed prefix decoded element by element: ' + g[:300]
         if problem:
             bad += 1
             res.violation({'lines': [ln.split(' ', 1)[1]], 'problem': problem,
